@@ -39,6 +39,17 @@ def hh_keys(rng, n, L):
         k = keys[int(rng.integers(0, len(keys)))]
         if len(k) < L:
             out.append(k + b"\0")
+    if rng.random() < 0.6 and keys:
+        # siblings that differ only in one byte: the last counted byte (position max_key_len-1), the first, or a middle one
+        k = keys[int(rng.integers(0, len(keys)))]
+        full = (k + bytes(rng.integers(1, 256, L, dtype=np.uint8)))[:L]
+        pos = pick(rng, [L - 1, L - 1, 0, int(rng.integers(0, L))])
+        sib = bytearray(full)
+        sib[pos] ^= pick(rng, [1, 0x80, 0xFF])
+        out.append(full)
+        out.append(bytes(sib))
+        if rng.random() < 0.5:
+            out.append(bytes(sib) + b"tail")  # over-long, shares the max_key_len prefix with the sibling
     seen = set()
     res = []
     for k in out:
